@@ -309,7 +309,11 @@ func treadmillAdapter(c string, j Job) *tmAdapter {
 	case "arraylist", "singlylinkedlist", "doublylinkedlist":
 		sys := intListSys(c, 8, 3)
 		a := sys.newAPI()
-		return &tmAdapter{name: sys.Name(), iter: a.iter, ins: func(k int) { a.add(k) }, del: func(k int) { a.remove(0) },
+		del := func(k int) { a.remove(0) }
+		if j.p("lifo", 0) == 1 { // the newest element leaves first (removal at the end of the list)
+			del = func(k int) { a.remove(a.size() - 1) }
+		}
+		return &tmAdapter{name: sys.Name(), iter: a.iter, ins: func(k int) { a.add(k) }, del: del,
 			observe: func(live []int, future int) *Viol {
 				vals := a.values()
 				if a.size() != len(live) || !seqEq(vals, live) {
@@ -374,12 +378,17 @@ func treadmillJob(j Job, r *JobResult) {
 	}
 	next := 0 // the next key to insert; live keys are next-size .. next-1
 	var live []int
+	burst := false  // the last three modifications of a long gap are insertions (the container ends the gap larger than it began)
 	mod := func() { // one modification: insert while below w, else alternate remove / insert
-		if len(live) < w {
+		if len(live) < w || burst {
 			ad.ins(next)
 			live = append(live, next)
 			next++
 			r.St.OpsHistogram["insert"]++
+		} else if j.p("lifo", 0) == 1 {
+			ad.del(live[len(live)-1])
+			live = live[:len(live)-1]
+			r.St.OpsHistogram["remove"]++
 		} else {
 			ad.del(live[0])
 			live = live[1:]
@@ -396,7 +405,7 @@ func treadmillJob(j Job, r *JobResult) {
 		n, size := next, len(live)
 		last := -1
 		for i := 0; i < g; i++ {
-			if size < w {
+			if size < w || (g >= 8 && i >= g-3) {
 				last = n
 				n++
 				size++
@@ -516,8 +525,10 @@ func treadmillJob(j Job, r *JobResult) {
 			}
 			for i, g := range gaps {
 				for k := 0; k < g; k++ {
+					burst = g >= 8 && k >= g-3
 					mod()
 				}
+				burst = false
 				ng := gaps[(i+1)%len(gaps)]
 				if observe(g, ng) {
 					fail = true
